@@ -148,6 +148,8 @@ pub struct MapRunner<K: KeyT, V: ValT> {
     preds: std::rc::Rc<std::cell::RefCell<Vec<(u64, bool, u64)>>>,
     /// ownership ledger: ids of key/value objects that are owned by one of the collections
     live: std::collections::BTreeSet<String>,
+    /// objects that have been dropped or handed back
+    dead: std::collections::BTreeSet<String>,
     /// a leak is legitimate from here on (a drain was forgotten / a destructor panicked)
     leak_ok: bool,
 }
@@ -330,6 +332,7 @@ impl<K: KeyT, V: ValT> MapRunner<K, V> {
             rb: RefMap::new(),
             preds: Default::default(),
             live: Default::default(),
+            dead: Default::default(),
             leak_ok: false,
         }
     }
@@ -397,7 +400,8 @@ impl<K: KeyT, V: ValT> MapRunner<K, V> {
                 expect = Some("()".into())
             }
             ("try_reserve", 1) => {
-                if n(0) < (1 << 40) {
+                let refusing = tape::with(|t| t.p.afail.is_some() || t.p.afrom.is_some());
+                if n(0) < (1 << 40) && !refusing {
                     expect = Some("ok".into())
                 }
             }
@@ -551,14 +555,22 @@ impl<K: KeyT, V: ValT> MapRunner<K, V> {
         }
         for ev in events {
             if let Some(id) = ev.strip_prefix('d') {
-                if !self.live.remove(id) {
+                let n: u64 = id[1..].parse().unwrap();
+                // clones made and destroyed inside one operation are never seen in a collection
+                let transient = n >= 1_000_000 && !self.dead.contains(id);
+                if !self.live.remove(id) && !transient {
                     return Some(format!("object {} dropped twice (or never owned)", id));
+                }
+                if !self.dead.insert(id.to_string()) {
+                    return Some(format!("object {} dropped twice", id));
                 }
             }
         }
         for id in tape::take_returned() {
             // probe keys / rejected arguments handed back are not in `live`; that is fine
-            self.live.remove(&id);
+            if self.live.remove(&id) && !self.dead.insert(id.clone()) {
+                return Some(format!("object {} handed back after it was dropped", id));
+            }
         }
         for id in &held {
             if !self.live.contains(id) {
